@@ -326,32 +326,39 @@ def wildStart (p : Path) : Bool := p.head? == some [plus] || p.head? == some [ha
 
 def topicDollar (topic : Str) : Bool := topic.head? == some dollar
 
+/-- loop body of `gatherSubscriptions` -/
+def gatherSubOne (topic : Str) (m : List (Str × Sub)) (cs : Str × Sub) : List (Str × Sub) :=
+  if dollarExcluded cs.2.filter topic then m
+  else match assocGet m cs.1 with
+    | none => assocSet m cs.1 (cs.2.merge cs.2)
+    | some cls => assocSet m cs.1 (cls.merge cs.2)
+
+/-- inner loop body of `gatherSharedSubscriptions`: `subs.Shared[sub.Filter][client] = sub` -/
+def gatherSharedOne (m : List (Str × List (Str × Sub))) (cs : Str × Sub) : List (Str × List (Str × Sub)) :=
+  match assocGet m cs.2.filter with
+  | none => m ++ [(cs.2.filter, [(cs.1, cs.2)])]
+  | some mm => assocSet m cs.2.filter (assocSet mm cs.1 cs.2)
+
+/-- loop body of `gatherInlineSubscriptions` -/
+def gatherInlineOne (m : List (Nat × Sub)) (is : Nat × Sub) : List (Nat × Sub) := assocSet m is.1 is.2
+
 def gatherStep (ns : List Node) (topic : Str) (acc : Subscribers) : Gather → Subscribers
   | .subs p =>
     match getNode ns p with
     | none => acc
-    | some n =>
-      { acc with subs := n.subs.foldl (fun m (cs : Str × Sub) =>
-          if dollarExcluded cs.2.filter topic then m
-          else match assocGet m cs.1 with
-            | none => assocSet m cs.1 (cs.2.merge cs.2)
-            | some cls => assocSet m cs.1 (cls.merge cs.2)) acc.subs }
+    | some n => { acc with subs := n.subs.foldl (gatherSubOne topic) acc.subs }
   | .shared p =>
     match getNode ns p with
     | none => acc
     | some n =>
       if topicDollar topic && wildStart p then acc else
-      { acc with shared := n.shared.foldl (fun m g =>
-          g.2.foldl (fun m (cs : Str × Sub) =>
-            match assocGet m cs.2.filter with
-              | none => m ++ [(cs.2.filter, [(cs.1, cs.2)])]
-              | some mm => assocSet m cs.2.filter (assocSet mm cs.1 cs.2)) m) acc.shared }
+      { acc with shared := n.shared.foldl (fun m g => g.2.foldl gatherSharedOne m) acc.shared }
   | .inline p =>
     match getNode ns p with
     | none => acc
     | some n =>
       if topicDollar topic && wildStart p then acc else
-      { acc with inline := n.inline.foldl (fun m (is : Nat × Sub) => assocSet m is.1 is.2) acc.inline }
+      { acc with inline := n.inline.foldl gatherInlineOne acc.inline }
 
 /-- `TopicsIndex.Subscribers(topic)` -/
 def subscribers (x : Index) (topic : Str) : Subscribers :=
